@@ -14,6 +14,7 @@ import time
 VERIF = os.path.dirname(os.path.dirname(os.path.abspath(__file__)))
 REPO = os.environ.get("VERIF_REPO", "/repo")
 NCPU = int(os.environ.get("VERIF_CORES", "16"))
+COVMAP = bool(os.environ.get("VERIF_COVMAP"))
 
 COMMON_SRCS = ["wfcqueue.c", "wfqueue.c", "wfstack.c", "compat_arch.c", "compat_futex.c"]
 CDS_SRCS = ["rculfqueue.c", "rculfstack.c", "lfstack.c", "workqueue.c", "rculfhash.c",
@@ -166,6 +167,8 @@ def run_jobs(bdir, bins, jobs, global_deadline=None):
                 cmd += ["--deadline", "%.1f" % dl]
             if j.horizon:
                 cmd += ["--horizon", str(j.horizon)]
+            if COVMAP:   # development aid (bin/coverage), never set by a registered command
+                cmd += ["--covmap", os.path.join(bdir, "job%03d.%s.cov" % (i, j.build))]
             for k, v in sorted(j.params.items()):
                 cmd += ["--param", "%s=%s" % (k, v)]
             env = dict(os.environ)
